@@ -88,6 +88,10 @@ pub enum EOp {
     AddFloatingLayer,
     PasteSixel(i32, i32),
     UndoCaretPosition,
+    /// mirror mode makes set_char write a second, mirrored cell (context, no undo entry of its own)
+    SetMirrorMode(bool),
+    /// enumerate_selections with one of three predicates (select non-blank cells / deselect everything / toggle)
+    EnumerateSelections(u8),
 }
 
 impl EOp {
@@ -214,6 +218,18 @@ fn apply(st: &mut EditState, op: &EOp) -> Result<(), String> {
             e(st.paste_sixel(icy_engine::Sixel::from_data((*w, *h), 1, 1, data)))
         }
         EOp::UndoCaretPosition => e(st.undo_caret_position()),
+        EOp::SetMirrorMode(on) => {
+            st.set_mirror_mode(*on);
+            Ok(())
+        }
+        EOp::EnumerateSelections(m) => {
+            match m % 3 {
+                0 => st.enumerate_selections(|_, ch, _| Some(ch.is_visible() && ch.ch != ' ' && ch.ch != '\0')),
+                1 => st.enumerate_selections(|_, _, _| Some(false)),
+                _ => st.enumerate_selections(|pos, _, sel| if (pos.x + pos.y) % 2 == 0 { Some(!sel) } else { None }),
+            }
+            Ok(())
+        }
     }
 }
 
@@ -576,7 +592,7 @@ fn run(case: &Case08) -> Verdict {
             while tries < 6 && edit.is_none() {
                 let op = if tries == 5 || (tries == 0 && case.walk % 3 == 0) { EOp::SetChar(0, 0, 0x23, 1, 2) } else { gen_op(&mut rng) };
                 tries += 1;
-                if matches!(op, EOp::SetCurrentLayer(_) | EOp::SetCaret(..)) {
+                if matches!(op, EOp::SetCurrentLayer(_) | EOp::SetCaret(..) | EOp::SetMirrorMode(_)) {
                     continue;
                 }
                 if !st.can_redo() {
@@ -710,7 +726,7 @@ fn layer_idx(rng: &mut Rng) -> usize {
 }
 
 pub fn gen_op(rng: &mut Rng) -> EOp {
-    match rng.usize(71) {
+    match rng.usize(73) {
         58 => EOp::SetSauceFont(rng.usize(40)),
         59 => EOp::AddFont(rng.below(8) as u8),
         60 => EOp::SetFont(rng.below(8) as u8),
@@ -724,6 +740,8 @@ pub fn gen_op(rng: &mut Rng) -> EOp {
         68 => EOp::PasteSixel(*rng.pick(&[1, 8, 9, 20]), *rng.pick(&[1, 16, 17, 6])),
         69 => EOp::UndoCaretPosition,
         70 => EOp::SetIceMode(rng.usize(3) as u8),
+        71 => EOp::SetMirrorMode(rng.bool()),
+        72 => EOp::EnumerateSelections(rng.below(3) as u8),
         0 | 1 => EOp::SetCurrentLayer(layer_idx(rng)),
         2 | 3 => {
             let p = pos(rng);
@@ -855,10 +873,13 @@ fn alphabet() -> Vec<EOp> {
         EOp::RemoveFont(1),
         EOp::SwitchToPalette(2),
         EOp::UpdateSauce(5),
-        EOp::UpdateLayerProps(0, 0b1010_1010),
+        EOp::UpdateLayerProps(0, 0b0001_1000),
+        EOp::UpdateLayerProps(1, 0b1000_0011),
         EOp::AddFloatingLayer,
         EOp::PasteSixel(9, 17),
         EOp::UndoCaretPosition,
+        EOp::SetMirrorMode(true),
+        EOp::EnumerateSelections(0),
     ]
 }
 
@@ -973,7 +994,7 @@ impl Prop for C08 {
         "C08"
     }
     fn rule(&self) -> &'static str {
-        "a history is a sequence of public EditState operations (set/swap char, add/remove/raise/lower/duplicate/clear/merge/toggle/move/resize layer, resize buffer with and without layers, crop, selection set/clear/add-to-mask/inverse, erase, flip x/y, justify, center, insert/delete row and column, erase row/column, scroll area, rotate, make transparent, stamp down, paste (clipboard cells and sixel images) and anchor, floating layers, layer properties, ice/palette mode, palette replacement, SAUCE data and font changes (ANSI / SAUCE / custom fonts set and added, font usage replaced, font slots moved and removed), plus current-layer / caret changes) on a 12x8 document of 1..=3 layers (alpha, offset, hidden, locked; every font mode, ice mode and palette mode, up to three fonts with cells on pages 0/1/5, bright backgrounds and blinking cells, shade / half-block / solid glyphs, custom palettes, with and without SAUCE). After every operation that returns Ok the harness records (undo stack length, snapshot of buffer size, modes, palette, fonts, SAUCE and per layer order, properties, size, offset, default font page and every cell TextPane::get_char shows within the layer's size; content hidden by a smaller size becomes observable, and is then compared, when a later undo grows the size back). It then undoes everything (undo must return Ok, never panic, shrink the stack; at every length that equals an operation boundary the snapshot of that boundary must be back), redoes everything (same check, final snapshot), does both rounds a second time (a record must survive being undone and redone repeatedly), takes a random undo/redo walk, and checks that a new edit after an undo (set_char or an operation drawn from the whole alphabet that records an undo entry) clears the redo history. Exhaustive: all histories of length 1 and 2 over a 67-operation instantiated alphabet on 3 documents (length 3: thorough complete, quick sampled); random histories up to length 40. An operation that returns Err ends the history; one that panics is outside C08 (counted). distinct_nontrivial = distinct (op-kind sequence, undo depth) histories that changed the document"
+        "a history is a sequence of public EditState operations (set/swap char, add/remove/raise/lower/duplicate/clear/merge/toggle/move/resize layer, resize buffer with and without layers, crop, selection set/clear/add-to-mask/inverse, erase, flip x/y, justify, center, insert/delete row and column, erase row/column, scroll area, rotate, make transparent, stamp down, paste (clipboard cells and sixel images) and anchor, floating layers, layer properties, ice/palette mode, palette replacement, SAUCE data and font changes (ANSI / SAUCE / custom fonts set and added, font usage replaced, font slots moved and removed), plus current-layer / caret / mirror-mode changes and enumerate_selections) on a 12x8 document of 1..=3 layers (alpha, offset, hidden, locked; every font mode, ice mode and palette mode, up to three fonts with cells on pages 0/1/5, bright backgrounds and blinking cells, shade / half-block / solid glyphs, custom palettes, with and without SAUCE). After every operation that returns Ok the harness records (undo stack length, snapshot of buffer size, modes, palette, fonts, SAUCE and per layer order, properties, size, offset, default font page and every cell TextPane::get_char shows within the layer's size; content hidden by a smaller size becomes observable, and is then compared, when a later undo grows the size back). It then undoes everything (undo must return Ok, never panic, shrink the stack; at every length that equals an operation boundary the snapshot of that boundary must be back), redoes everything (same check, final snapshot), does both rounds a second time (a record must survive being undone and redone repeatedly), takes a random undo/redo walk, and checks that a new edit after an undo (set_char or an operation drawn from the whole alphabet that records an undo entry) clears the redo history. Exhaustive: all histories of length 1 and 2 over a 70-operation instantiated alphabet on 3 documents (length 3: thorough complete, quick sampled); random histories up to length 40. An operation that returns Err ends the history; one that panics is outside C08 (counted). distinct_nontrivial = distinct (op-kind sequence, undo depth) histories that changed the document"
     }
     fn meta(&self, ctx: &Ctx) -> Value {
         json!({"floor_evaluations": 5000, "floor_distinct": ctx.tier.pick(2000u64, 50000u64),
